@@ -97,7 +97,7 @@ func (c Config) String() string {
 		}
 		return 0
 	}
-	return fmt.Sprintf("mode=%s cdis=%d sdis=%d cleg=%d sleg=%d rawc=%d raws=%d free=%d keys=%d", c.Mode, b(c.CDisable), b(c.SDisable), b(c.CLegacy), b(c.SLegacy), b(c.RawClient), b(c.RawServer), b(c.Free), b(c.Keys))
+	return fmt.Sprintf("mode=%s cdis=%d sdis=%d cleg=%d sleg=%d rawc=%d raws=%d free=%d keys=%d nested=%d", c.Mode, b(c.CDisable), b(c.SDisable), b(c.CLegacy), b(c.SLegacy), b(c.RawClient), b(c.RawServer), b(c.Free), b(c.Keys), b(c.Nested))
 }
 
 // ---------- raw peers ----------
@@ -203,10 +203,20 @@ func NewWorld(cfg Config) *World {
 	realServer := !cfg.RawServer
 	realClient := !cfg.RawClient
 	sd := w.serviceDesc()
+	// what the outer tunnel's server exposes: the scripted service itself, or (nested) the tunnel
+	// service of an inner handler that exposes the scripted service
+	var outerDesc *grpc.ServiceDesc = sd
+	var outerImpl interface{} = &simService{w}
+	if cfg.Nested {
+		w.inner = grpctunnel.NewTunnelServiceHandler(grpctunnel.TunnelServiceHandlerOptions{NoReverseTunnels: true})
+		w.inner.RegisterService(sd, &simService{w})
+		outerDesc = &tunnelpb.TunnelService_ServiceDesc
+		outerImpl = w.inner.Service()
+	}
 	if cfg.Mode == "fwd" {
 		if realServer {
 			w.handler = grpctunnel.NewTunnelServiceHandler(grpctunnel.TunnelServiceHandlerOptions{DisableFlowControl: cfg.SDisable})
-			w.handler.RegisterService(sd, &simService{w})
+			w.handler.RegisterService(outerDesc, outerImpl)
 			w.stub.svc = w.handler.Service()
 		} else {
 			w.stub.svc = &rawSvc{w: w}
@@ -240,7 +250,7 @@ func NewWorld(cfg Config) *World {
 				o = append(o, grpctunnel.WithDisableFlowControl())
 			}
 			w.revServer = grpctunnel.NewReverseTunnelServer(w.stub, o...)
-			w.revServer.RegisterService(sd, &simService{w})
+			w.revServer.RegisterService(outerDesc, outerImpl)
 		}
 		// in a reverse tunnel the network client is the tunnel server
 		w.stub.stripReq = cfg.SLegacy && realServer
